@@ -271,7 +271,7 @@ def run_entry(entry, n, seed, acc, tier):
             k = ch.integer(1, min(6, len(doc.segs) - 2))
             del doc.segs[-k:]
             meta['truncated'] = k
-        return {'text': doc.text(term=dl[0], ele=dl[1], sub=dl[2], rep=dl[3], eol='' if dl[0] == '\n' else '\n'), 'meta': meta}
+        return {'text': doc.text(term=dl[0], ele=dl[1], sub=dl[2], rep=dl[3], eol='' if dl[0] == '\n' else ch.choice(['\n', '\n', '', '\r\n'])), 'meta': meta}
 
     def chk(c):
         if 'skip' in c:
